@@ -645,6 +645,8 @@ local function _lua_reset_env()
     env["_new_loader"] = new_loader
     env["_cached_mod"] = _cached_mod
     env["_save_mod"] = _save_mod
+    env["_push_loaded_modules"] = _push_loaded_modules
+    env["_pop_loaded_modules"] = _pop_loaded_modules
     env["package"] = new_package
     env["_mw_clone"] = mw_clone
     -- namespace
@@ -656,6 +658,32 @@ end
 
 local function _clear_loadData_cache()
     loaddata_cache = {}
+end
+
+-- An #invoke that runs inside another invocation (through frame:preprocess,
+-- frame:expandTemplate, ...) must see freshly loaded modules, like one at the
+-- top level of the page, not the tables that the invocations around and before
+-- it have been working with.  _lua_invoke brackets every invocation with
+-- these: the first sets aside everything but the retained modules, the second
+-- brings it back.
+function _push_loaded_modules()
+    local saved = loaded_modules
+    loaded_modules = {}
+    for k, v in pairs(saved) do
+        if retained_modules[k] == true then
+            loaded_modules[k] = v
+        end
+    end
+    return saved
+end
+
+function _pop_loaded_modules(saved)
+    for k, v in pairs(loaded_modules) do
+        if retained_modules[k] == true and saved[k] == nil then
+            saved[k] = v
+        end
+    end
+    loaded_modules = saved
 end
 
 -- Switch to the sandbox environment
